@@ -191,6 +191,126 @@ fn c23_cancel_at_every_callback_all_formats() {
     println!("VERIF-B unit=reader test=c23_cancel_at_every_callback_all_formats evaluations={evals} nontrivial={nontrivial} exhaustive=true domain=every callback index k of signing and of reading back fixtures of GIF, TIFF, WAV, WebP, MP3, SVG, JPEG XL, FLAC, HEIC, AVI");
 }
 
+// the remaining operations of the statement: fragmented read, sidecar read and ingredient import
+#[test]
+fn c23_cancel_fragment_sidecar_ingredient() {
+    let mut counts = std::collections::BTreeMap::new();
+    let mut evals = 0usize;
+    let mut nontrivial = 0usize;
+    // fragmented BMFF: init segment + one fragment
+    if let (Ok(init), Ok(frag)) = (std::fs::read(crate::utils::test::fixture_path("dashinit.mp4")), std::fs::read(crate::utils::test::fixture_path("dash1.m4s"))) {
+        let (e, n) = c23_sweep(
+            "read fragment dashinit.mp4 + dash1.m4s",
+            |ctx| {
+                let r = Reader::from_context(ctx).with_fragment("video/mp4", std::io::Cursor::new(init.clone()), std::io::Cursor::new(frag.clone()))?;
+                Ok(format!("state {:?}", r.validation_state()))
+            },
+            &mut counts,
+        );
+        evals += e;
+        nontrivial += n;
+    }
+    // sidecar: sign without embedding, read the manifest bytes back against the unchanged asset
+    if let Ok(bytes) = std::fs::read(crate::utils::test::fixture_path("IMG_0003.jpg")) {
+        let sidecar: std::result::Result<Vec<u8>, Error> = (|| {
+            let shared = crate::utils::test::test_context().into_shared();
+            let mut b = crate::Builder::from_shared_context(&shared).with_definition(r#"{"title":"t","assertions":[]}"#)?;
+            b.set_intent(crate::BuilderIntent::Create(crate::DigitalSourceType::Empty));
+            b.set_no_embed(true);
+            let mut src = std::io::Cursor::new(bytes.clone());
+            let mut dst = std::io::Cursor::new(Vec::new());
+            b.save_to_stream("image/jpeg", &mut src, &mut dst)
+        })();
+        match sidecar {
+            Ok(manifest) => {
+                let (e, n) = c23_sweep(
+                    "read sidecar manifest of IMG_0003.jpg",
+                    |ctx| {
+                        let r = Reader::from_context(ctx).with_manifest_data_and_stream(&manifest, "image/jpeg", std::io::Cursor::new(bytes.clone()))?;
+                        Ok(format!("state {:?}", r.validation_state()))
+                    },
+                    &mut counts,
+                );
+                evals += e;
+                nontrivial += n;
+                let (e, n) = c23_sweep(
+                    "sign IMG_0003.jpg without embedding",
+                    |ctx| {
+                        let shared = ctx.into_shared();
+                        let mut b = crate::Builder::from_shared_context(&shared).with_definition(r#"{"title":"t","assertions":[]}"#)?;
+                        b.set_intent(crate::BuilderIntent::Create(crate::DigitalSourceType::Empty));
+                        b.set_no_embed(true);
+                        let mut src = std::io::Cursor::new(bytes.clone());
+                        let mut dst = std::io::Cursor::new(Vec::new());
+                        let m = b.save_to_stream("image/jpeg", &mut src, &mut dst)?;
+                        Ok(format!("sidecar of {} bytes", m.len()))
+                    },
+                    &mut counts,
+                );
+                evals += e;
+                nontrivial += n;
+            }
+            Err(e) => println!("VERIF-B-SAMPLE sidecar signing set-up failed: {e}"),
+        }
+    }
+    // ingredient import: assets that carry a manifest (data hash, BMFF hash) and one that does not
+    for (file, mime) in [("C.jpg", "image/jpeg"), ("CA.jpg", "image/jpeg"), ("video1.mp4", "video/mp4"), ("IMG_0003.jpg", "image/jpeg")] {
+        let Ok(bytes) = std::fs::read(crate::utils::test::fixture_path(file)) else { continue };
+        let (e, n) = c23_sweep(
+            &format!("import ingredient {file}"),
+            |ctx| {
+                let shared = ctx.into_shared();
+                let mut b = crate::Builder::from_shared_context(&shared).with_definition(r#"{"title":"t","assertions":[]}"#)?;
+                let ing = b.add_ingredient_from_stream(r#"{"title":"i","relationship":"parentOf"}"#, mime, &mut std::io::Cursor::new(bytes.clone()))?;
+                Ok(format!("ingredient imported, validation_status {:?}", ing.validation_status().map(|v| v.iter().map(|s| s.code().to_string()).collect::<Vec<_>>())))
+            },
+            &mut counts,
+        );
+        evals += e;
+        nontrivial += n;
+        // import followed by signing
+        let (e, n) = c23_sweep(
+            &format!("import ingredient {file} and sign"),
+            |ctx| {
+                let shared = ctx.into_shared();
+                let mut b = crate::Builder::from_shared_context(&shared).with_definition(r#"{"title":"t","assertions":[]}"#)?;
+                b.add_ingredient_from_stream(r#"{"title":"i","relationship":"parentOf"}"#, mime, &mut std::io::Cursor::new(bytes.clone()))?;
+                let mut src = std::io::Cursor::new(bytes.clone());
+                let mut dst = std::io::Cursor::new(Vec::new());
+                b.save_to_stream(mime, &mut src, &mut dst)?;
+                Ok(format!("signed {} bytes", dst.get_ref().len()))
+            },
+            &mut counts,
+        );
+        evals += e;
+        nontrivial += n;
+    }
+    // ingredient import that asks an OCSP responder (ocsp.jpg: signer certificate with an OCSP responder URL), through a
+    // resolver that answers every request with an error: the FetchingOCSP checkpoints are reached without a network
+    if let Ok(bytes) = std::fs::read(crate::utils::test::fixture_path("ocsp.jpg")) {
+        struct Refuse;
+        impl crate::http::SyncHttpResolver for Refuse {
+            fn http_resolve(&self, _request: http::Request<Vec<u8>>) -> std::result::Result<http::Response<Box<dyn std::io::Read>>, crate::http::HttpResolverError> {
+                Err(crate::http::HttpResolverError::Io(std::io::Error::new(std::io::ErrorKind::Other, "refused")))
+            }
+        }
+        let (e, n) = c23_sweep(
+            "import ingredient ocsp.jpg with certificate_status_fetch=all",
+            |ctx| {
+                let shared = ctx.with_settings(r#"{"builder": {"certificate_status_fetch": "all"}}"#)?.with_resolver(Refuse).into_shared();
+                let mut b = crate::Builder::from_shared_context(&shared).with_definition(r#"{"title":"t","assertions":[]}"#)?;
+                let ing = b.add_ingredient_from_stream(r#"{"title":"i","relationship":"parentOf"}"#, "image/jpeg", &mut std::io::Cursor::new(bytes.clone()))?;
+                Ok(format!("ingredient imported, validation_status {:?}", ing.validation_status().map(|v| v.iter().map(|s| s.code().to_string()).collect::<Vec<_>>())))
+            },
+            &mut counts,
+        );
+        evals += e;
+        nontrivial += n;
+    }
+    println!("VERIF-B-SAMPLE violation classes this run: {:?}", counts);
+    println!("VERIF-B unit=reader test=c23_cancel_fragment_sidecar_ingredient evaluations={evals} nontrivial={nontrivial} exhaustive=true domain=every callback index k of {{fragmented read dashinit.mp4+dash1.m4s; sidecar sign and read of IMG_0003.jpg; ingredient import (and import+sign) of C.jpg, CA.jpg, video1.mp4, IMG_0003.jpg; ingredient import of ocsp.jpg with OCSP fetching through a refusing resolver}}");
+}
+
 // ---------------------------------------------------------------- C35 (Engine B): short reads and injected I/O faults at the public API
 // (a) a stream that returns data in small pieces gives the same result as the plain stream;
 // (b) a stream that breaks at its k-th operation (that read / seek and all later ones fail), for EVERY k of a full
